@@ -30,6 +30,8 @@ def main():
         for what, d in cases.SURFACE_TIE[:3]:
             if not any(v[0] == what for v in chk.violations):
                 chk.violation(what, d)
+        if cases.MERGE_STATS["surfaces"]:
+            chk.counters["depth surfaces whose nodal values were compared with the model's merge (Kernels.merge_values)"] = cases.MERGE_STATS["surfaces"]
     except common.TieError as e:
         # /repo builds, the harness does not: the correspondence no longer checks and nothing could be searched
         chk.violation("the correspondence harness %s no longer compiles against /repo: the tie between the model and the code cannot be checked" % e.harness,
